@@ -288,6 +288,33 @@ func runC07(c *Ctx) {
 		}
 	}
 	mm := c.validateCalls(p, sch, calls, 14)
+	// a string that is not valid UTF-8 and does not fit its field: encodeString looks for a
+	// character boundary that does not exist and writes a shorter (or empty) string without
+	// complaint - the other face of the recorded finding about such strings (there: Encode refuses)
+	{
+		var rest []Mismatch
+		for _, m := range mm {
+			if m.Call.API == "encode" && str(m.Rec["what"]) == "field" {
+				if pf := p.bySindex(num(m.Rec["m"]), num(m.Rec["s"])); pf != nil && pf.B == 7 && pf.A == 0 {
+					if ob, ok := m.Rec["observed"].([]interface{}); ok {
+						raw := make([]byte, 0, len(ob))
+						for _, x := range ob {
+							if v := num(x); v >= 0 {
+								raw = append(raw, byte(v))
+							}
+						}
+						if !utf8.Valid(raw) && len(raw) > pf.L-1 {
+							c.report("encode-cuts:invalid UTF-8 string", fmt.Sprintf("Encode silently shortens a decoded string that is not valid UTF-8 and longer than its field (%s, message %d field %d): %v is written as %v", m.Call.Note, num(m.Rec["m"]), pf.N, m.Rec["observed"], m.Rec["expected"]),
+								map[string]interface{}{"call": m.Call, "mismatch": m.Rec})
+							continue
+						}
+					}
+				}
+			}
+			rest = append(rest, m)
+		}
+		mm = rest
+	}
 	c.reportFamily(p, mm, func(m Mismatch) bool {
 		// decode events of the original input x are C02's business; everything
 		// on the re-encoding path is C07's
